@@ -59,4 +59,5 @@ for _pid, _specs in (('C13', props_lin.SPECS), ('C03', props_alg.SPECS), ('C11',
 props_sim.SPECS['C07']['extra'] = list(props_sim.SPECS['C07'].get('extra', [])) + [(props_sim.GROUP_FAST, props_sim.gen_fast_c07)]
 props_est.SPECS['C12']['extra'] = list(props_est.SPECS['C12'].get('extra', [])) + [(props_lin.GROUP_DBL, props_lin.gen_dbl_c12)]
 props_est.SPECS['C11']['extra'] = list(props_est.SPECS['C11'].get('extra', [])) + [(props_lin.GROUP_DBL, props_lin.gen_dbl_c11)]
+props_sim.SPECS['C08']['extra'] = list(props_sim.SPECS['C08'].get('extra', [])) + [(props_sim.GROUP_REAL, props_sim.gen_real_c08)]
 NOT_CLAIMED = {}
